@@ -934,6 +934,21 @@ func ruleR37(c *Ctx) {
 	}
 	_ = rin
 	c.Check(closesAll, runF, runF.Body, "termination closes every subscriber", "when the tracer terminates it closes the channel of every subscriber (that is how watchers learn that nothing more will come)", fmt.Sprintf("close(...) inside a loop over the subscribers in the terminate clause: %v", closesAll))
+	// (8) the inbound trace channel is unbuffered: Send returns only once the broadcaster has the trace, so a
+	// sender's Done() cannot overtake its last trace and termination cannot drop queued traces
+	for _, ms := range ce.Makes {
+		if ms.Dest == nil || !ms.Dest.IsField() || ms.Dest.Name() != "traces" || shortPkg(ms.Func.Pkg.PkgPath) != "pkg/tracing" {
+			continue
+		}
+		c.Check(ms.Cap == "0", ms.Func, ms.Call, "tracer inbound channel is unbuffered", "Send hands the trace to the broadcaster synchronously (capacity 0): with a buffer a sender can call Done() while its last traces are still queued, the termination message then races them and they are dropped", "capacity class: "+ms.Cap)
+	}
+	// (9) the termination message is taken only by the broadcaster
+	for _, op := range ce.Ops {
+		if op.Kind == OpRecv && op.Ref.Field == "tracer.terminate" {
+			okSite := runTree[op.Func] || runTree[op.Func.Root()]
+			c.Check(okSite, op.Func, op.Node, "receive of the termination message", "the one-shot 'all senders are done' message is addressed to the broadcaster; any other receiver steals it and the tracer never terminates (the closed-on-termination signal for everybody else is Done())", ifElse(okSite, "in the broadcaster's goroutine", "in "+op.Func.QName()))
+		}
+	}
 	// (7) a sender handle is counted when it is handed out
 	for _, f := range p.Funcs {
 		if f.Obj == nil || !isMethod(f.Obj, pathTracing, "RegisterSender") || f.Body == nil {
